@@ -278,13 +278,13 @@ def declare(spec):
              "implies(self.dynamic_classes is True, next_individual.class_change_date >= self.now)"),
             ("static-classes-nothing-happens", "implies(not (self.dynamic_classes is True), same('class_change_date', 'next_class'))"),
         ],
-        loop_invariants={0: ["is_time(next_time)", "is_fin(next_time) or is_pinf(next_time)", "next_time >= 0"]},
+        loop_invariants={0: ["is_fin(next_time) or is_pinf(next_time)", "next_time >= 0"]},
         raises=[("ValueError", "True")],
         props=["C02", "C09", "C10"])
 
     # ---- restarting interrupted customers (pre-emptive shift end) -------------------------------------------
     M["interrupted_head_ok"] = (
-        "lambda n: len(n.interrupted_individuals) > 0 and cls_ok(n, n.interrupted_individuals[0]) "
+        "lambda n: len(n.interrupted_individuals) > 0 and cls_ok(n, n.interrupted_individuals[0]) and ref_eq(loc(n.interrupted_individuals[0]), n) "
         "and has(n.interrupted_individuals[0], 'time_left') and has(n.interrupted_individuals[0], 'original_service_time') "
         "and (n.interrupted_individuals[0].service_time == 'resample' or n.interrupted_individuals[0].service_time == 'restart' "
         "     or n.interrupted_individuals[0].service_time == 'resume') "
@@ -355,3 +355,54 @@ def declare(spec):
              "implies(newly_free_server is None or not (newly_free_server in self.servers), same('service_start_date', 'service_end_date', 'server', 'number_in_service', 'cust', 'busy'))"),
         ],
         props=["C02", "C04", "C05", "C08", "C10", "C12"])
+
+    # ---- priority pre-emption decision -------------------------------------------------------------------------
+    add(spec, "Node.decide_preempt",
+        types={"individual": IND},
+        cases=[
+            dict(name="off", when="self.priority_preempt is False", modifies=[], ensures=[]),
+            dict(name="on", when="not (self.priority_preempt is False)", modifies=["*"], ensures=["same('c', 'slotted', 'priority_preempt')"]),
+        ],
+        assumed=True, note="placeholder until preempt is under contract (C11): the 'off' case is exact, the 'on' case says nothing",
+        props=["C11"])
+
+    M["wc"] = ("lambda n: isinf(n.c) or forall_in(n.servers, lambda s: s.busy) or "
+               "forall_obj('Individual', lambda i: implies(ref_eq(loc(i), n), i.server), trigger=lambda i: loc(i))")
+    M["wc_except"] = ("lambda n, x: isinf(n.c) or forall_in(n.servers, lambda s: s.busy) or "
+                      "forall_obj('Individual', lambda i: implies(ref_eq(loc(i), n) and not ref_eq(i, x), i.server), trigger=lambda i: loc(i))")
+
+    BSIPA_REQ = ["shape(self)", "net_ok(self)", "float_clock(self)", "has_servers(self)", "dyn_ok(self)", "pop_fwd(self)",
+                 "cls_ok(self, next_individual)", "ref_eq(loc(next_individual), self)", "not next_individual.server",
+                 "prio_ok(self, next_individual)", "next_individual in self.individuals[next_individual.priority_class]",
+                 "all_waiting_ok(self)",
+                 "implies(self.dynamic_classes, forall_in(self.individuals, lambda q: forall_in(q, lambda i: "
+                 "ref_eq(i, next_individual) or has(i, 'class_change_date'))))"]
+    add(spec, "Node.begin_service_if_possible_accept",
+        types={"next_individual": IND},
+        requires=BSIPA_REQ,
+        allocates=True, raises=[("ValueError", "True")],
+        cases=[
+            dict(name="nopreempt", when="self.priority_preempt is False or isinf(self.c)",
+                 requires=[("C05:work-conserving-before-the-arrival", "wc_except(self, next_individual)")],
+                 modifies=[f + AT_SELF for f in IND_FIELDS] + [f + "@S(self.servers)" for f in SRV_FIELDS] +
+                          ["number_in_service@self", "next_class_change_date@self", "next_class_change_ind@self"],
+                 ensures=[
+                     ("C02+C13:arrival-stamped-now", "next_individual.arrival_date == self.now"),
+                     ("C13:patience-sampled-at-arrival",
+                      "implies(self.reneging is True, has(next_individual, 'reneging_date') and next_individual.reneging_date >= self.now)"),
+                     ("C05:work-conserving-after-the-arrival", "wc(self)"),
+                     ("C05:infinite-servers-start-at-once", "implies(isinf(self.c), next_individual.service_start_date == self.now)"),
+                     ("C04:at-most-one-service-started",
+                      "self.number_in_service == old(self.number_in_service) or self.number_in_service == old(self.number_in_service) + 1"),
+                     ("C02+C10:a-started-service-starts-now-and-lasts-its-sample",
+                      "forall_obj('Individual', lambda i: implies(ref_eq(loc(i), self) and old(i.service_start_date) is False and not (i.service_start_date is False), "
+                      "i.service_start_date == self.now and i.service_end_date == self.now + i.service_time and i.service_time >= 0), trigger=lambda i: loc(i))"),
+                     ("C04:a-started-service-holds-a-free-server-of-this-node",
+                      "implies(not isinf(self.c), forall_obj('Individual', lambda i: implies(ref_eq(loc(i), self) and old(i.service_start_date) is False and not (i.service_start_date is False), "
+                      "is_obj(i.server, 'Server') and as_obj(i.server, 'Server') in self.servers and not oldf(as_obj(i.server, 'Server'), 'busy') "
+                      "and ref_eq(as_obj(i.server, 'Server').cust, i) and as_obj(i.server, 'Server').busy "
+                      "and as_obj(i.server, 'Server').next_end_service_date == i.service_end_date), trigger=lambda i: loc(i)))"),
+                 ]),
+            dict(name="preempt", when="not (self.priority_preempt is False or isinf(self.c))", modifies=["*"], ensures=[]),
+        ],
+        props=["C02", "C04", "C05", "C08", "C10", "C11", "C13"])
